@@ -96,6 +96,73 @@ impl<'c, 'r, C: ZCol> Visitor<C> for V<'c, 'r> {
             }
             ctx.count("pixels_recorded", a.log.map.len() as u64);
         }
+        // the same three paths through one of the library's own target adapters on a large parent:
+        // a cropped view (its bounding box is the crop area, but drawing outside it still reaches the
+        // parent), a clipped view and a translated view. A drawable that consults the target's
+        // bounding box must not let draw() and pixels() (or the two kinds of parent) disagree.
+        {
+            use embedded_graphics::draw_target::DrawTargetExt;
+            let h = desc.hash();
+            let kind_ad = h % 3;
+            let parent_box = rect(-400, -400, 1000, 1000);
+            let (cx, cy) = (bb.top_left.x + bb.size.width as i32 / 2, bb.top_left.y + bb.size.height as i32 / 2);
+            let area = match kind_ad {
+                // crop box (0,0,w,h) in the drawable's coordinates ends at the drawable's centre
+                0 => rect((h / 3 % 9) as i32 - 4, (h / 27 % 9) as i32 - 4, cx.unsigned_abs().clamp(1, 300), cy.unsigned_abs().clamp(1, 300)),
+                // clip area cuts through the drawable
+                _ => rect(cx - (h / 3 % 7) as i32, bb.top_left.y - 2, bb.size.width / 2 + 3, bb.size.height + 1),
+            };
+            let off = Point::new((h / 5 % 41) as i32 - 20, (h / 205 % 41) as i32 - 20);
+            let adapter_text = || match kind_ad {
+                0 => format!("cropped({:?})", egmon::target::rt(&area)),
+                1 => format!("clipped({:?})", egmon::target::rt(&area)),
+                _ => format!("translated(({},{}))", off.x, off.y),
+            };
+            let case = || format!("{} colour {} through {} of a parent with box {:?}", desc.text(), C::name(), adapter_text(), egmon::target::rt(&parent_box));
+            macro_rules! through {
+                ($parent:expr, |$t:ident| $body:expr) => {
+                    match kind_ad {
+                        0 => {
+                            let mut $t = $parent.cropped(&area);
+                            $body
+                        }
+                        1 => {
+                            let mut $t = $parent.clipped(&area);
+                            $body
+                        }
+                        _ => {
+                            let mut $t = $parent.translated(off);
+                            $body
+                        }
+                    }
+                };
+            }
+            ctx.eval();
+            let mut a = IterTarget::<C>::new(parent_box);
+            let mut b = NativeTarget::<C>::new(parent_box);
+            a.log.budget = budget;
+            b.log.budget = budget;
+            let ra = through!(a, |t| d.draw_on(&mut t));
+            let rb = through!(b, |t| d.draw_on(&mut t));
+            if !(a.log.over_budget || b.log.over_budget) {
+                if ra.is_err() || rb.is_err() || ra.ok() != rb.ok() {
+                    ctx.violation(format!("{}|adapter|return-value-differs-between-targets", kind), case, || "draw() returns different values on the two kinds of parent".into());
+                }
+                if !a.log.map.same(&b.log.map) {
+                    ctx.violation(format!("{}|adapter|default-fills-vs-native-fills|{}", kind, diff_class(&a.log.map, &b.log.map)), case, || format!("parent maps differ at {:?} (x, y, draw_iter-only parent, native parent)", a.log.map.first_diff(&b.log.map)));
+                }
+                if let Some(px) = d.pixels_vec(budget as usize + 1) {
+                    let mut c = IterTarget::<C>::new(parent_box);
+                    let _ = through!(c, |t| t.draw_iter(px.iter().copied()));
+                    if !a.log.map.same(&c.log.map) {
+                        ctx.violation(format!("{}|adapter|draw-vs-pixels|{}", kind, diff_class(&a.log.map, &c.log.map)), case, || {
+                            format!("parent maps differ at {:?} (x, y, draw(), pixels() via draw_iter); {} vs {} pixels\ndraw():\n{}pixels():\n{}", a.log.map.first_diff(&c.log.map), a.log.map.len(), c.log.map.len(), a.log.map.ascii(40), c.log.map.ascii(40))
+                        });
+                    }
+                }
+                ctx.count("draws_through_library_adapters", 2);
+            }
+        }
         if drew_something {
             ctx.nontrivial(desc.hash() ^ egmon::rng::hash_str(C::name()));
         }
